@@ -1,0 +1,113 @@
+//go:build verif
+
+package shwap
+
+// Contracts for the deductive verifier in /verif (govc). This file contains comments only and is
+// compiled only with the build tag "verif"; it changes nothing in the package.
+//
+// Syntax: Gobra-style //@ clauses keyed by function name and loop ordinal. See /verif/DESIGN.md.
+
+// ---------------------------------------------------------------------------------------------
+// Spec functions (definitions): big-endian decoding of byte slices (matches encoding/binary).
+
+//@ pure func u16be(b []byte, at int) int = b[at]*256 + b[at+1]
+//@ pure func u64be(b []byte, at int) int = ((((((b[at]*256 + b[at+1])*256 + b[at+2])*256 + b[at+3])*256 + b[at+4])*256 + b[at+5])*256 + b[at+6])*256 + b[at+7]
+
+// The protocol maximum of the extended square width (2 * appconsts.SquareSizeUpperBound).
+//@ const MaxEDS = 1024
+
+// ---------------------------------------------------------------------------------------------
+// EdsID
+
+//@ func (EdsID).Validate
+//@   property C18
+//@   ensures err == nil <==> eid.height != 0
+
+//@ func (EdsID).AppendBinary
+//@   property C18
+//@   nopanic
+//@   ensures err == nil
+//@   ensures len(result) == len(data) + 8
+//@   ensures sameArray(result, data) || isFresh(result)
+//@   modifies data
+//@   ensures forall i int :: 0 <= i && i < len(data) ==> result[i] == old(data[i])
+//@   ensures u64be(result, len(data)) == eid.height
+
+//@ func (EdsID).MarshalBinary
+//@   property C18
+//@   nopanic
+//@   ensures err == nil && len(result) == EdsIDSize
+//@   ensures u64be(result, 0) == eid.height
+
+//@ func EdsIDFromBinary
+//@   property C18
+//@   nopanic
+//@   untrusted data
+//@   ensures err == nil <==> (len(data) == EdsIDSize && u64be(data, 0) != 0)
+//@   ensures err == nil ==> result.height == u64be(data, 0) && result.height != 0
+
+//@ func NewEdsID
+//@   property C18
+//@   ensures err == nil ==> result.height == height && height != 0
+
+//@ func (*EdsID).Equals
+//@   property C18
+//@   ensures result <==> eid.height == other.height
+
+// ---------------------------------------------------------------------------------------------
+// RowID
+
+//@ func (RowID).Validate
+//@   property C18
+//@   ensures err == nil <==> (rid.RowIndex >= 0 && rid.EdsID.height != 0)
+
+//@ func (RowID).Verify
+//@   property C18 C01
+//@   ensures err == nil ==> 0 <= rid.RowIndex && rid.RowIndex < edsSize && rid.EdsID.height != 0
+
+//@ func NewRowID
+//@   property C18
+//@   ensures err == nil ==> result.EdsID.height == height && result.RowIndex == rowIdx
+//@   ensures err == nil ==> 0 <= rowIdx && rowIdx < edsSize && height != 0
+
+//@ func (RowID).AppendBinary
+//@   property C18
+//@   nopanic
+//@   ensures err == nil
+//@   ensures len(result) == len(data) + 10
+//@   ensures sameArray(result, data) || isFresh(result)
+//@   modifies data
+//@   ensures forall i int :: 0 <= i && i < len(data) ==> result[i] == old(data[i])
+//@   ensures u64be(result, len(data)) == rid.EdsID.height
+//@   ensures u16be(result, len(data) + 8) == mod(rid.RowIndex, 65536)
+
+//@ func (RowID).MarshalBinary
+//@   property C18
+//@   nopanic
+//@   ensures err == nil && len(result) == RowIDSize
+//@   ensures u64be(result, 0) == rid.EdsID.height
+//@   ensures u16be(result, 8) == mod(rid.RowIndex, 65536)
+
+//@ func RowIDFromBinary
+//@   property C18
+//@   nopanic
+//@   untrusted data
+//@   ensures err == nil <==> (len(data) == RowIDSize && u64be(data, 0) != 0)
+//@   ensures err == nil ==> result.EdsID.height == u64be(data, 0) && result.RowIndex == u16be(data, 8)
+//@   ensures err == nil ==> result.EdsID.height != 0 && result.RowIndex >= 0
+
+//@ func (*RowID).Equals
+//@   property C18
+//@   ensures result <==> (rid.EdsID.height == other.EdsID.height && rid.RowIndex == other.RowIndex)
+
+// Round trip: an identifier that can be constructed for a protocol-size square decodes to itself.
+//@ lemma C18_RowID_roundtrip(height uint64, rowIdx int, edsSize int)
+//@   property C18
+//@   assume 0 < edsSize && edsSize <= MaxEDS
+//@   let id, e1 = NewRowID(height, rowIdx, edsSize)
+//@   assume e1 == nil
+//@   let bs, e2 = id.MarshalBinary()
+//@   assert e2 == nil
+//@   let back, e3 = RowIDFromBinary(bs)
+//@   assert e3 == nil
+//@   assert back.EdsID.height == height && back.RowIndex == rowIdx
